@@ -43,16 +43,26 @@ func mayReturnBool(in ssa.Instruction, idx int, val bool) bool {
 }
 
 func canBeBool(v ssa.Value, val bool, seen map[ssa.Value]bool) bool {
+	return canBeBoolK(v, val, seen, nil)
+}
+
+// canBeBoolK: as canBeBool, with values whose truth is known under the rule's assumption
+func canBeBoolK(v ssa.Value, val bool, seen map[ssa.Value]bool, known func(ssa.Value) (bool, bool)) bool {
 	if seen[v] {
 		return false
 	}
 	seen[v] = true
+	if known != nil {
+		if k, ok := known(v); ok {
+			return k == val
+		}
+	}
 	if cv, ok := constOf(v); ok && cv.Kind() == constant.Bool {
 		return constant.BoolVal(cv) == val
 	}
 	if p, ok := v.(*ssa.Phi); ok {
 		for _, e := range p.Edges {
-			if canBeBool(e, val, seen) {
+			if canBeBoolK(e, val, seen, known) {
 				return true
 			}
 		}
